@@ -233,6 +233,10 @@ func calculateMaxCreation(params *datadoghqv1alpha1.ExtendedDaemonSetSpecStrateg
 	if err != nil {
 		return 0, err
 	}
+	// Without a positive interval there is no slow-start ramp to follow (and nothing to divide by).
+	if params.SlowStartIntervalDuration.Duration <= 0 {
+		return int(*params.MaxParallelPodCreation), nil
+	}
 	rollingUpdateDuration := now.Sub(rsStartTime)
 	nbSlowStartSlot := int(rollingUpdateDuration / params.SlowStartIntervalDuration.Duration)
 	result := (1 + nbSlowStartSlot) * startValue
